@@ -29,7 +29,7 @@ MIN_BUDGET = 250
 
 TIERS = {
     'quick': {'runs': 100000, 'classes': 8, 'budget_s': 80},
-    'thorough': {'runs': 600000, 'classes': 32, 'budget_s': 1100},
+    'thorough': {'runs': 3000000, 'classes': 32, 'budget_s': 1100},
 }
 
 NPRED = 4
